@@ -555,6 +555,20 @@ def gen_objective(r, multi):
     return {'multi': False, 'metrics': [r.choice(single)], 'fail': fail}
 
 
+def discrete_combinations(sspec, gspec):
+    n = 1
+    for node in gspec:
+        for dist, *scope in sspec.get(node['name'], {}).values():
+            if dist in ('uniformint', 'randint'):
+                n *= max(1, scope[1] - scope[0])
+            elif dist == 'choice':
+                n *= len(scope[0])
+    return n
+
+
+MAX_EVENTS = 400
+
+
 def gen_case(r, kind=None, multi=None):
     kind = kind or r.choice(KINDS)
     if multi is None:
@@ -563,6 +577,14 @@ def gen_case(r, kind=None, multi=None):
     n_nodes = r.choice([1, 2, 3, 3, 4, 4, 5, 6])
     gspec = gen_graph(r, sspec, n_nodes, r.choice(['none', 'partial', 'partial', 'full']),
                       outside_rate=0.0)
+    if kind == 'iopt':
+        # iOpt evaluates every combination of discrete values: keep their number small
+        for _ in range(50):
+            if discrete_combinations(sspec, gspec) <= 12:
+                break
+            n_nodes = max(1, n_nodes - 1) if r.random() < 0.5 else n_nodes
+            sspec = gen_space(r, True)
+            gspec = gen_graph(r, sspec, n_nodes, r.choice(['none', 'partial', 'partial', 'full']))
     t = {'kind': kind, 'iterations': r.choice([1, 1, 2, 3, 3, 4, 5, 8, 12]),
          'deviation': r.choice([0.05, 0.05, 0.0, 25.0]), 'inverse': kind == 'sequential' and r.random() < 0.3}
     return {'space': sspec, 'graph': gspec, 'objective': gen_objective(r, multi), 'tuner': t}
@@ -577,6 +599,9 @@ def corner_cases():
     one_init = [{'name': 'a', 'params': {'x': 2, 'y': 0.75, 'zz': 5}, 'parents': []}]
     unt = [{'name': 'c', 'params': {'q': 1}, 'parents': [1]}, {'name': 'd', 'params': None, 'parents': []}]
     out = []
+    # first IOpt run of the process (iOpt's shared default Solution is still pristine): AttributeError
+    out.append({'space': sp1, 'graph': one, 'objective': {'multi': False, 'metrics': ['sum'], 'fail': 'on-set'},
+                'tuner': {'kind': 'iopt', 'iterations': 2, 'deviation': 0.05}, 'corner': 'iopt-all-invalid-fresh'})
     for kind in KINDS:
         base = {'kind': kind, 'iterations': 2, 'deviation': 0.05}
         S = {'multi': False, 'metrics': ['sum'], 'fail': None}
@@ -594,6 +619,8 @@ def corner_cases():
                     'corner': 'multi-invalid-init'})
         out.append({'space': sp1, 'graph': one, 'objective': dict(S, fail='on-set'), 'tuner': base,
                     'corner': 'tuned-invalid'})
+        out.append({'space': sp1, 'graph': one, 'objective': dict(M, fail='on-set'), 'tuner': base,
+                    'corner': 'multi-tuned-invalid'})
         out.append({'space': sp1, 'graph': one, 'objective': dict(S, fail='on-init'), 'tuner': base,
                     'corner': 'init-invalid'})
         out.append({'space': spd, 'graph': one, 'objective': S, 'tuner': base, 'corner': 'discrete-only'})
@@ -612,13 +639,19 @@ def has_tunable(case):
 
 
 def iopt_all_trials_invalid(case, run):
-    """IOptTuner, single objective, valid input, every point iOpt evaluated was invalid"""
-    if case['tuner']['kind'] != 'iopt' or case['objective']['multi'] or run['obs']['metric_in'][0] != 'S':
+    """IOptTuner, objective valid on the input, something (continuous) to tune, and iOpt obtained no valid
+    trial: every point it evaluated is invalid (or its first iteration failed internally and nothing was
+    evaluated); iOpt then hands back its shared default Solution"""
+    sspec = case['space']
+    if case['tuner']['kind'] != 'iopt' or run['obs']['metric_in'][0] == 'I':
         return False
+    if not any(TYPE[s[0]] == 'continuous' for n in case['graph'] for s in sspec.get(n['name'], {}).values()):
+        return False
+    multi_mode = run['obs']['metric_in'][0] == 'M'
     work = [e for e in run['events'] if e[0] == 'eval'][1:]
     work = [e for e in work if e[1]]
-    trials = work if run['obs']['raised'] is not None else work[:-1]
-    return bool(trials) and all(e[3][0] == 'I' for e in trials)
+    trials = work if (multi_mode or run['obs']['raised'] is not None) else work[:-1]
+    return all(e[3][0] != run['obs']['metric_in'][0] for e in trials)
 
 
 def finding_key(case, run):
@@ -669,15 +702,20 @@ def facts(case, run):
 # ----------------------------------------------------------------------------------------
 def evaluate_cases(ctx, group, cases):
     runs, terms, kept = [], [], []
-    skipped = 0
+    skipped = too_long = 0
     for case in cases:
         run = run_impl(case)
         if threshold_ambiguous(case, run):
             skipped += 1
             continue
+        if len(run['events']) > MAX_EVENTS:
+            too_long += 1
+            continue
         runs.append(run)
         kept.append(case)
         terms.append(coq_case(case, run))
+    if too_long:
+        ctx.notes.append('%s: %d case(s) skipped: more than %d logged events' % (group, too_long, MAX_EVENTS))
     if skipped:
         ctx.notes.append('%s: %d case(s) skipped: a metric within binary64 rounding distance of the deviation threshold' % (group, skipped))
     res = ctx.coq_cases(group, REQ, FN, terms, NB, shard=40, preamble=PREAMBLE) if terms else []
